@@ -1,24 +1,8 @@
 From Coq Require Import List NArith Bool Lia ZArith.
 From Coq Require Import ZifyBool ZifyN.
 From LE Require Import BFT.ForkChoice.
+Import ListNotations.
 Local Open Scope N_scope.
-
-Lemma classify_matches_lip14 : forall c last cur tl tc, classify c last cur tl tc = lip14_case c last cur tl tc.
-Proof.
-  intros c last cur tl tc. unfold classify, lip14_case, is_valid_block, is_identical, is_double_forging,
-    is_tie_break, is_duplicate, is_different_chain, is_different_chain_raw.
-  destruct (f_id last =? f_id cur); [reflexivity|].
-  destruct ((u32 (f_height last + 1) =? f_height cur) && (f_id last =? f_prev cur)); [reflexivity|].
-  destruct ((f_height last =? f_height cur) && (f_mhp last =? f_mhp cur) && (f_prev last =? f_prev cur)) eqn:D;
-    cbn [andb].
-  - destruct (f_gen last =? f_gen cur); cbn [negb andb]; [reflexivity|].
-    destruct (slot_number c (f_ts last) <? slot_number c (f_ts cur)); cbn [andb];
-    destruct (recv_last_in_slot c last tl); cbn [negb andb];
-    destruct (recv_cur_in_slot c cur tc); cbn [andb]; try reflexivity;
-    destruct (f_mhp last <? f_mhp cur); cbn [orb]; try reflexivity;
-    rewrite andb_comm; reflexivity.
-  - destruct (f_mhp last <? f_mhp cur); cbn [orb]; try reflexivity. rewrite andb_comm; reflexivity.
-Qed.
 
 (* IsDifferentChain is the strict lexicographic order on (maxHeightPrevoted, height). *)
 Definition lex_lt (a b : N * N) : Prop := fst a < fst b \/ (fst a = fst b /\ snd a < snd b).
@@ -57,3 +41,60 @@ Proof.
     match goal with |- context [if ?x then DifferentChain else _] => destruct x eqn:E5 end; lia.
   - match goal with |- context [if ?x then DifferentChain else _] => destruct x eqn:E5 end; lia.
 Qed.
+
+(* ---- order-free LIP-0014 specification ---- *)
+Lemma spec_cases_singleton : forall c last cur tl tc, spec_cases c last cur tl tc = [classify c last cur tl tc].
+Proof.
+  intros c last cur tl tc. unfold spec_cases, spec_conditions, classify, is_valid_block, is_identical, is_double_forging,
+    is_tie_break, is_duplicate, is_different_chain, is_different_chain_raw, recv_last_in_slot, recv_cur_in_slot.
+  rewrite (N.eqb_sym (f_height cur) (u32 (f_height last + 1))), (N.eqb_sym (f_prev cur) (f_id last)).
+  destruct (f_id last =? f_id cur) eqn:E1; cbn [negb andb filter map fst snd].
+  { destruct ((u32 (f_height last + 1) =? f_height cur) && (f_id last =? f_prev cur)); reflexivity. }
+  destruct ((u32 (f_height last + 1) =? f_height cur) && (f_id last =? f_prev cur)) eqn:E2; cbn [negb andb filter map fst snd];
+    [reflexivity|].
+  destruct ((f_height last =? f_height cur) && (f_mhp last =? f_mhp cur) && (f_prev last =? f_prev cur)) eqn:E3;
+    cbn [negb andb filter map fst snd].
+  - (* duplicate: heights and mhp equal, so "better" is false *)
+    assert (B : (f_mhp last <? f_mhp cur) || ((f_mhp last =? f_mhp cur) && (f_height last <? f_height cur)) = false) by lia.
+    assert (B' : (f_mhp last <? f_mhp cur) || ((f_height last <? f_height cur) && (f_mhp last =? f_mhp cur)) = false) by lia.
+    rewrite B, B'.
+    destruct (f_gen last =? f_gen cur); cbn [negb andb filter map fst snd]; [reflexivity|].
+    destruct (slot_number c (f_ts last) <? slot_number c (f_ts cur)); cbn [negb andb filter map fst snd]; [|reflexivity].
+    destruct (match tl with Some t => slot_number c (u32 t) =? slot_number c (f_ts last) | None => true end);
+      cbn [negb andb filter map fst snd]; [reflexivity|].
+    destruct (slot_number c (u32 tc) =? slot_number c (f_ts cur)); reflexivity.
+  - assert (B : (f_mhp last <? f_mhp cur) || ((f_height last <? f_height cur) && (f_mhp last =? f_mhp cur))
+                = (f_mhp last <? f_mhp cur) || ((f_mhp last =? f_mhp cur) && (f_height last <? f_height cur))) by lia.
+    rewrite B.
+    destruct ((f_mhp last <? f_mhp cur) || ((f_mhp last =? f_mhp cur) && (f_height last <? f_height cur)));
+      reflexivity.
+Qed.
+
+(* the conditions are pairwise exclusive and exhaustive (immediate from the singleton, stated for the reader) *)
+Lemma spec_case_unique : forall c last cur tl tc k,
+  In k (spec_cases c last cur tl tc) <-> k = classify c last cur tl tc.
+Proof. intros. rewrite spec_cases_singleton. cbn. split; [intros [H|[]]; auto | auto]. Qed.
+
+(* slot numbers are plain floor division when the timestamp is not before genesis *)
+Lemma slot_number_spec : forall c ts, genesis_ts c <= ts -> ts < 4294967296 ->
+  slot_number c ts = (ts - genesis_ts c) / interval c.
+Proof.
+  intros c ts H1 H2. unfold slot_number, u32.
+  replace (ts + 4294967296 - genesis_ts c) with ((ts - genesis_ts c) + 1 * 4294967296) by lia.
+  rewrite N.mod_add by discriminate. rewrite N.mod_small by lia. reflexivity.
+Qed.
+
+(* HeaderHasPriority / Synced are the strict LIP-0014 order, i.e. exactly "the other chain is NOT a different (better) chain
+   and not equal" read from the other side: has_priority hm hh height mhp = IsDifferentChain(mhp, hm, height, hh) *)
+Lemma has_priority_is_lex : forall hm hh height mhp,
+  has_priority hm hh height mhp = true <-> lex_lt (mhp, height) (hm, hh).
+Proof. intros. unfold has_priority, lex_lt; cbn. lia. Qed.
+Lemma has_priority_is_different_chain : forall hm hh height mhp,
+  has_priority hm hh height mhp = is_different_chain_raw mhp hm height hh.
+Proof. intros. unfold has_priority, is_different_chain_raw. lia. Qed.
+Lemma has_priority_total : forall hm hh height mhp,
+  has_priority hm hh height mhp = false -> has_priority mhp height hh hm = false -> hm = mhp /\ hh = height.
+Proof. intros *. unfold has_priority. lia. Qed.
+Lemma has_priority_v0_spec : forall hh height mhp,
+  has_priority_v0 hh height mhp = true <-> height <= hh /\ mhp <= hh.
+Proof. intros. unfold has_priority_v0. lia. Qed.
